@@ -27,6 +27,7 @@ type histCfg struct {
 	FinalReopen bool // every fresh history ends with clean shutdown + restart + check (pages re-read from disk)
 	Walk        bool // run the tree walker after every fresh event
 	OnlyWalk    bool // judge only the walker (and crashes/hangs of tree code); other oracles belong to other properties
+	CacheAfterSeed int // > 0: once the seed is built and flushed, the page cache is replaced by an empty one of this capacity and every statement is followed by a timer flush
 	TickInStmt  bool // C04: the timer may fire while one more DML statement is between its page changes and its log append
 	AltSchemas  bool // the tables t1, t2, t3 are declared with other columns than in every other config (same names)
 }
@@ -185,6 +186,14 @@ func histBody(cfgs []histCfg, crashBound int) lib.Body {
 		}
 		if c.Fresh() && cfg.Walk && !w.walk("after seed") {
 			return
+		}
+		if cfg.CacheAfterSeed > 0 {
+			if !w.tick() {
+				return
+			}
+			storage.VerifReplaceCache(w.sess.RelationService, cfg.CacheAfterSeed)
+			storage.VerifSetCacheCap(cfg.CacheAfterSeed)
+			w.opt.Cache, w.opt.AutoTick, w.opt.TolerateCacheFull = cfg.CacheAfterSeed, true, true
 		}
 		crashes := 0
 		for step := 0; step < cfg.Depth; step++ {
